@@ -139,7 +139,8 @@ theorem Closed_index {x idx r : Expr} (hx : Closed x) (h : index x idx = some r)
     | none => simp [hn] at h
     | some n =>
       simp only [hn, Option.bind_eq_bind, Option.bind_some] at h
-      exact Closed_of_mem (Closed_children hx) (List.mem_of_getElem? h)
+      obtain ⟨i, hi⟩ := nth?_some h
+      exact Closed_of_mem (Closed_children hx) (List.mem_of_getElem? hi)
   · cases hn : idx.asNumber? with
     | none => simp [hn] at h
     | some n =>
@@ -156,7 +157,8 @@ theorem Closed_index {x idx r : Expr} (hx : Closed x) (h : index x idx = some r)
     | none => simp [hn] at h
     | some n =>
       simp only [hn, Option.bind_eq_bind, Option.bind_some] at h
-      exact Closed_of_mem (Closed_children hx) (List.mem_of_getElem? h)
+      obtain ⟨i, hi⟩ := nth?_some h
+      exact Closed_of_mem (Closed_children hx) (List.mem_of_getElem? hi)
   · cases h
 
 theorem Closed_reduceBuiltin {b : BKind} {cs : List Expr} {r : Expr} (hn : ClosedL cs)
